@@ -162,6 +162,18 @@ def run(case):
         if exc:
             res.fail('%s:%s' % (eng, exc), 'distance_matrix raised (block=%r, form=%s)' % (block, case['form']))
             continue
+        # a returned matrix belongs to the caller: a later call (other collection size, no block) must not change it
+        snap = [float(v) for v in np.asarray(got, dtype=float).ravel()]
+        sub = data[:max(1, n - 1)]
+        if nd == 1:
+            libcall(dtw.distance_matrix, sub, use_c=(eng == 'c'), parallel=False, compact=True, **lkw)
+        else:
+            libcall(dtw_ndim.distance_matrix, sub, ndim=nd, use_c=(eng == 'c'), parallel=False, compact=True, **lkw)
+        now = [float(v) for v in np.asarray(got, dtype=float).ravel()]
+        if len(now) != len(snap) or any(not (a == b or (a != a and b != b)) for a, b in zip(now, snap)):
+            res.fail(eng + ':result-overwritten', 'the matrix returned for block=%r changed (%d -> %d values) when another '
+                     'matrix was computed afterwards' % (block, len(snap), len(now)))
+            continue
         if case['form'] == 'compact':
             vals = [float(v) for v in got]
             results[eng] = vals
